@@ -140,6 +140,9 @@ static void order_case(void) {
       const lp_polynomial_t* A = swap ? o[2].p : o[0].p; const lp_polynomial_t* B = swap ? o[0].p : o[2].p;
       lp_polynomial_t* R = lp_polynomial_new(octx[r]);
       unsigned w = rnd(ri == 0 ? 4 : 3);
+      /* a multivariate gcd of two dense random polynomials in four variables can take minutes (it finishes; observed: 133 s under the
+         sanitizers, reported as a hang by the watchdog - a false alarm): only small operands go to the gcd */
+      if (w == 3) { int terms = 2; for (const char* c = t0; *c; ++c) if (*c == '+') ++terms; for (const char* c = t2; *c; ++c) if (*c == '+') ++terms; if (terms > 6) w = 2; }
       if (w == 3) {
         lp_polynomial_gcd(R, A, B);
         sb_begin("gcd", "gcd"); sb_sp(); hp_ring_token(ri); sb_sp(); sb_long(0); sb_sp(); sb_str(swap ? t2 : t0); sb_sp(); sb_str(swap ? t0 : t2); sb_sp(); sb_str("1"); sb_arrow();
